@@ -1,7 +1,10 @@
 package checks
 
 import (
+	"encoding/json"
 	"fmt"
+	"os"
+	"os/exec"
 	"strings"
 	"time"
 
@@ -89,6 +92,12 @@ var c15JSONPatches = []string{`[]`, `[{"op":"add","path":"/a","value":1}]`, `[{"
 	`[{"op":"add","path":"/-","value":1},{"op":"add","path":"/-","value":2}]`,
 	`[{"op":"test","path":"/1","value":2},{"op":"test","path":"/0","value":1},{"op":"remove","path":"/0","value":1},{"op":"add","path":"/0","value":5},{"op":"add","path":"/0","value":6}]`}
 
+// c15IsoWorlds: (a,b) pairs for the isolation leg: the outputs for one pair must not depend on
+// which other pairs the same process handled before (package-level caches, memo tables).
+var c15IsoWorlds = [][2]string{{`"ab"`, `"ba"`}, {`"ba"`, `"ab"`}, {`"abc"`, `"cab"`}, {`"cab"`, `"abc"`}, {`["ab"]`, `["ba"]`}, {`["ba"]`, `["ab"]`},
+	{`{"k":"xyx"}`, `{"k":"yxy"}`}, {`{"k":"yxy"}`, `{"k":"xyx"}`}, {`[1,2]`, `[2,1]`}, {`[2,1]`, `[1,2]`}, {`{"a":1,"b":2}`, `{"b":1,"a":2}`}, {`{"b":1,"a":2}`, `{"a":1,"b":2}`},
+	{`[[1,2],[2,1]]`, `[[2,1],[1,2]]`}, {`[[2,1],[1,2]]`, `[[1,2],[2,1]]`}}
+
 var c15Targets = []string{`{"a":1}`, `{"a":{"b":1},"b":2,"c":{"x":1}}`, `[1]`, `[1,2]`, `[]`, `{}`, `1`, `{"a":1,"b":2,"c":3,"d":4,"e":5}`}
 
 func init() {
@@ -98,7 +107,7 @@ func init() {
 		Unstable:  true,
 		Rule: "call-history exploration: for every (a,b,o) of the universes (plus diffs read from merge patches and from JSON Patch documents against a target set) and every history of read-only API calls of length <= 2 (thorough: 3) over " +
 			"{Render, Render(COLOR), RenderPatch, RenderMerge, Json, Yaml, Equals, Diff-again}: after every call the memory snapshot of (a,b,d) - public DiffElement fields with the Go type and Json() of every node - must equal the initial snapshot, " +
-			"every output must equal the output of the same call on fresh values, and the final a.Patch(d) must give the history-free result; determinism leg: 40 in-process repetitions of every output on fresh values must be identical; map-order leg (build with controlled map iteration, DESIGN.md section 5): every output under every single (thorough: double) deviation of a map range from sorted order must equal the sorted-order output; non-trivial = history of length >= 2 on a non-empty diff, or an execution with a deviating map order",
+			"every output must equal the output of the same call on fresh values, and the final a.Patch(d) must give the history-free result; determinism leg: 40 in-process repetitions of every output on fresh values must be identical; isolation leg: for all ordered pairs of 14 worlds (incl. each pair and its reverse) the outputs computed after handling the other world must equal those of a fresh process; map-order leg (build with controlled map iteration, DESIGN.md section 5): every output under every single (thorough: double) deviation of a map range from sorted order must equal the sorted-order output; non-trivial = history of length >= 2 on a non-empty diff, or an execution with a deviating map order",
 		Bounds: func(tier string) map[string]interface{} {
 			L := 2
 			if tier == "thorough" {
@@ -113,15 +122,24 @@ func init() {
 			}
 			return m
 		},
-		Enum:     enumC15,
-		Run:      runC15,
-		Required: func(string) []string { return []string{"history/len=2", "history/len=1", "determinism"} },
-		Assume:   []string{"the snapshot (public fields, dynamic types, Json() of every node) captures the state the listed calls can observe; histories up to the bound are additionally run without state de-duplication", "map iteration order is exercised by in-process repetition (free-running); see DESIGN.md section 5"},
-		Budget:   budget(5*time.Minute, 45*time.Minute),
+		Enum: enumC15,
+		Run:  runC15,
+		Required: func(string) []string {
+			return []string{"history/len=2", "history/len=1", "determinism", "isolation/none"}
+		},
+		Assume: []string{"the snapshot (public fields, dynamic types, Json() of every node) captures the state the listed calls can observe; histories up to the bound are additionally run without state de-duplication", "map iteration order is exercised by in-process repetition (free-running); see DESIGN.md section 5"},
+		Budget: budget(5*time.Minute, 45*time.Minute),
 	})
 }
 
 func enumC15(tier string, e *engine.Emitter) {
+	for _, o := range []string{"none", "SET", "MERGE"} {
+		for _, w1 := range c15IsoWorlds {
+			for _, w2 := range c15IsoWorlds {
+				e.Emit(engine.Case{Kind: "c15iso:" + o, Leg: "isolation/" + o, A: w2[0], B: w2[1], C: w1[0], X: w1[1]})
+			}
+		}
+	}
 	L := 2
 	if tier == "thorough" {
 		L = 3
@@ -283,6 +301,9 @@ func runC15(c *engine.Case) engine.Result {
 	var fail string
 	kind := optOf(c.Kind)
 	det := strings.HasPrefix(c.Kind, "c15det:")
+	if strings.HasPrefix(c.Kind, "c15iso:") {
+		return runC15Iso(c, kind)
+	}
 	p := impl.Guard(func() {
 		if det {
 			res.Bucket = "determinism/" + kind
@@ -380,4 +401,66 @@ func historyNames(h string) string {
 		parts[i] = c15OpNames[h[i]]
 	}
 	return strings.Join(parts, ", ")
+}
+
+// OpsOutputs computes every observable output for one world; `jdmc ops` prints it from a
+// fresh process.
+func OpsOutputs(kind, A, B string) ([]string, error) {
+	var outs []string
+	for i := 0; i < len(c15Ops); i++ {
+		w, err := c15Build(kind, A, B)
+		if err != nil {
+			return nil, err
+		}
+		outs = append(outs, w.op(c15Ops[i]))
+	}
+	w, err := c15Build(kind, A, B)
+	if err != nil {
+		return nil, err
+	}
+	return append(outs, w.patch()), nil
+}
+
+// runC15Iso: outputs for (A,B) computed in this process right after the operations on another
+// pair (C,X) must equal the outputs a fresh process computes for (A,B) alone.
+func runC15Iso(c *engine.Case, kind string) engine.Result {
+	res := engine.Result{Bucket: "isolation/" + kind, Nontrivial: true}
+	var here []string
+	p := impl.Guard(func() {
+		OpsOutputs(kind, c.C, c.X) // the other pair first
+		here, _ = OpsOutputs(kind, c.A, c.B)
+		res.Transitions += 2 * (len(c15Ops) + 1)
+	})
+	if p != "" {
+		res.Violation = p
+		return res
+	}
+	self, err := os.Executable()
+	if err != nil {
+		res.Bucket = "isolation/no-executable"
+		return res
+	}
+	out, err := exec.Command(self, "ops", kind, c.A, c.B).Output()
+	if err != nil {
+		res.Bucket = "isolation/subprocess-failed"
+		return res
+	}
+	var fresh []string
+	if json.Unmarshal(out, &fresh) != nil || len(fresh) != len(here) {
+		res.Bucket = "isolation/subprocess-failed"
+		return res
+	}
+	res.Traces++
+	for i := range here {
+		if here[i] != fresh[i] {
+			name := "a.Patch(d)"
+			if i < len(c15Ops) {
+				name = c15OpNames[c15Ops[i]]
+			}
+			res.Violation = fmt.Sprintf("output of %s for (%s, %s) depends on what the process did before: after handling (%s, %s) it is %q, in a fresh process it is %q", name, c.A, c.B, c.C, c.X, here[i], fresh[i])
+			res.Sig = "output of " + name + " depends on earlier calls on other values"
+			return res
+		}
+	}
+	return res
 }
